@@ -303,6 +303,41 @@ def model_loads(ctx: Ctx, thorough: bool):
             diff = X.compare_ignoring_ns(h3, base_m, got)
             ctx.decide(diff is None, "R16.m", site, "", f"after the earlier loads [{'; '.join(hs)}] the document `{t}` loads differently: {diff}")
     ctx.stats["histories"] = n
+    # (c) the same *path* loaded again after the file was replaced by another rendering, by a malformed file, and again
+    site = f"{LOAD}::history::one path, file replaced between loads"
+    if prog.func_opt("__init__.py::load_xml") is None:
+        ctx.note("no package-level load_xml(filename): path histories not applicable")
+        return
+    try:
+        docs = {}
+        h4 = X.harness(prog, documents=docs)
+        bad = None
+        seq = [("prefix xtce", rend["prefix xtce"][0]), ("prefix xtce + comments", rend["prefix xtce + comments"][0])]
+        seq.append(("malformed XML", Raised(ExcVal("XMLSyntaxError", ("Opening and ending tag mismatch",)))))
+        seq.append(("prefix xtce", rend["prefix xtce"][0]))
+        seen = []
+        for name, doc in seq:
+            docs["the.xml"] = doc if isinstance(doc, Raised) else clone_tree(doc)
+            if not isinstance(doc, Raised):
+                attach_nsmap(docs["the.xml"])
+            k, got = h4.outcome("load_xml(p)", "__init__.py", p="the.xml")
+            if isinstance(doc, Raised):
+                if k != "raise":
+                    bad = f"the.xml now holds malformed XML but load_xml('the.xml') returns a definition (of an earlier load)"
+            elif k != "ok":
+                bad = f"the.xml holding the rendering `{name}` fails to load after earlier loads of the same path: {got}"
+            else:
+                diff = X.compare_ignoring_ns(h4, base_m, got)
+                if diff:
+                    bad = f"the.xml holding the rendering `{name}` loads differently after earlier loads of the same path: {diff}"
+                elif any(got is x for x in seen):
+                    bad = "two loads of the same path return one shared definition object"
+                seen.append(got)
+            if bad:
+                break
+        ctx.decide(bad is None, "R16.m", site, "every load reads the file", bad or "")
+    except (Unsupported, StepLimit) as e:
+        ctx.unknown("R16.m", site, str(e))
 
 
 def check(ctx: Ctx) -> None:
